@@ -341,7 +341,9 @@ def check_branch_folding(idx: Index, rep: Report) -> None:
         body = [unparse(s) for s in m.node.body]
         a, b, w = (x.arg for x in m.node.args.args[1:4])
         norms = [norm] if norm else ["to_signed", "to_unsigned"]
-        ok = any(alpha_same([s_ for s_ in m.node.body if not (isinstance(s_, ast.Expr) and isinstance(s_.value, ast.Constant))], f"lhs = {n}({a}, {w})\nrhs = {n}({b}, {w})\nreturn lhs {op} rhs") for n in norms)
+        flipped = {"<": ">", "<=": ">=", ">": "<", ">=": "<=", "==": "==", "!=": "!="}[op]
+        body_ = [s_ for s_ in m.node.body if not (isinstance(s_, ast.Expr) and isinstance(s_.value, ast.Constant))]
+        ok = any(alpha_same(body_, f"lhs = {n}({a}, {w})\nrhs = {n}({b}, {w})\nreturn lhs {op} rhs") or alpha_same(body_, f"lhs = {n}({a}, {w})\nrhs = {n}({b}, {w})\nreturn rhs {flipped} lhs") for n in norms)
         if ok:
             r.ok(c.fq, f"{m.loc} {cname}: {norm or 'normalised'} lhs {op} rhs")
         else:
